@@ -9,11 +9,11 @@ import (
 	"io"
 	"net"
 	"os"
-	"syscall"
 	"regexp"
 	"strings"
 	"sync"
 	"sync/atomic"
+	"syscall"
 	"time"
 
 	"github.com/ClickHouse/ch-go"
@@ -76,7 +76,7 @@ type Ledger struct {
 	refuse    int32 // factory refuses this many times
 	Refused   int
 	Pings     int
-	AllOK     atomic.Bool // once set, every outcome is ok and holds are skipped (faults stopped)
+	AllOK     atomic.Bool  // once set, every outcome is ok and holds are skipped (faults stopped)
 	LastDoRet atomic.Int64 // wall-clock unix nano of the last Do return
 }
 
@@ -242,12 +242,12 @@ func (c *Client) Ping(ctx context.Context) error {
 	c.l.mu.Unlock()
 	return nil
 }
-func (c *Client) Close() error { c.closed = true; return nil }
+func (c *Client) Close() error                                              { c.closed = true; return nil }
 func (c *Client) Exec(ctx context.Context, query string, args ...any) error { return nil }
 func (c *Client) Scan(ctx context.Context, req string, args []any, dest ...interface{}) error {
 	return nil
 }
-func (c *Client) DropIfEmpty(ctx context.Context, name string) error        { return nil }
+func (c *Client) DropIfEmpty(ctx context.Context, name string) error         { return nil }
 func (c *Client) TableExists(ctx context.Context, name string) (bool, error) { return true, nil }
 func (c *Client) GetDBExec(env map[string]string) func(ctx context.Context, query string, args ...[]interface{}) error {
 	return func(ctx context.Context, query string, args ...[]interface{}) error { return nil }
@@ -260,7 +260,7 @@ func (c *Client) PutSetting(ctx context.Context, tp string, name string, value s
 	return nil
 }
 func (c *Client) GetFirst(req string, first ...interface{}) error { return nil }
-func (c *Client) GetList(req string) ([]string, error)           { return nil, nil }
+func (c *Client) GetList(req string) ([]string, error)            { return nil, nil }
 func (c *Client) Query(ctx context.Context, query string, args ...interface{}) (driver.Rows, error) {
 	return nil, fmt.Errorf("fake client: Query not supported")
 }
